@@ -275,6 +275,7 @@ type comboDef struct {
 	sched       func(q bool) *SchedPlan
 	seq         func(q bool) *SeqPlan
 	enum        func(q bool) []*EnumPlan // optional
+	funcs       func(q bool) *FuncPlan   // optional: scenarios that are not engine specs (full nodes, real connections)
 	rule        string
 	note        string
 	assumptions []string
@@ -287,7 +288,14 @@ func comboCheck(d comboDef) {
 		if d.enum != nil {
 			eps = d.enum(c.Quick())
 		}
+		var fp *FuncPlan
+		if d.funcs != nil {
+			fp = d.funcs(c.Quick())
+		}
 		if c.Worker >= 0 {
+			if fp != nil && fp.find(c.Scen) != nil {
+				return fp.Worker(c)
+			}
 			if sp.find(c.Scen) != nil {
 				return sp.Worker(c)
 			}
@@ -323,6 +331,15 @@ func comboCheck(d comboDef) {
 		}
 		cov["evaluations"] = sr.Total.Executions + int64(qs.Trans)
 		viol := sr.Violations + qs.Violations
+		if fp != nil {
+			fr := fp.Master(c)
+			if fr.EngineErr != "" {
+				return EngineError("%s", fr.EngineErr)
+			}
+			viol += fr.Violations
+			cov["connection_scenarios"] = fp.Coverage(fr, "deviation-bounded schedule DFS in fine mode of server threads on a full node with real connections", c.Quick())
+			cov["evaluations"] = sr.Total.Executions + int64(qs.Trans) + fr.Total.Executions
+		}
 		if len(eps) > 0 {
 			sum := &EnumSummary{}
 			for _, ep := range eps {
@@ -332,7 +349,13 @@ func comboCheck(d comboDef) {
 				}
 			}
 			cov["enumerations"] = sum.Coverage("")
-			cov["evaluations"] = sr.Total.Executions + int64(qs.Trans) + int64(sum.Evaluations)
+			ev := sr.Total.Executions + int64(qs.Trans) + int64(sum.Evaluations)
+			if fe, ok := cov["connection_scenarios"].(map[string]interface{}); ok {
+				if n, ok := fe["evaluations"].(int64); ok {
+					ev += n
+				}
+			}
+			cov["evaluations"] = ev
 			viol += sum.Violations
 			c.ReportKnown(sum.KnownHits)
 		}
@@ -406,6 +429,9 @@ func init() {
 		enum: func(q bool) []*EnumPlan {
 			return []*EnumPlan{{Name: "text-connection-replies", Cases: c03TextCases, Eval: evalC03Text}}
 		},
+		// several server threads answering one binary connection at once (own handler, another connection's
+		// handler granting a queued request): every result exactly once, with its own fields
+		funcs:       func(q bool) *FuncPlan { return c14ConnPlanFor("C03", q) },
 		rule:        "schedule DFS (<=2/3 deviations) of 2-3 client threads racing the timeout/expiry sweepers, plus BFS over operation histories each extended by a drain; per connection the multiset of (RequestId, result) is checked: exactly one terminal reply per request, at most one EXPRIED per grant and only for requests that set the hold's terms, no foreign RequestId; non-trivial = at least two client threads answered",
 		note:        "histories: every state is extended by unlock-all + 40 virtual seconds, then the reply multiset of the whole history is judged; text connections: every sequence of text requests (short expiries, pauses, fire-and-forget PUSH) on one connection of a full node: one reply per request, in order, carrying the request's own LOCK_ID, never an expiry notice in place of an answer",
 		assumptions: commonAssumptions})
